@@ -72,6 +72,13 @@ func StartUpstreams(f *Fed) (*Upstreams, error) {
 	return u, nil
 }
 
+// SetRefuseInit switches the refusing behaviour (see RefuseInit) on or off.
+func (u *Upstreams) SetRefuseInit(b bool) {
+	u.mu.Lock()
+	u.RefuseInit = b
+	u.mu.Unlock()
+}
+
 func (u *Upstreams) Close() {
 	for _, ln := range u.lns {
 		ln.Close()
@@ -100,7 +107,14 @@ func (u *Upstreams) handle(idx int, c net.Conn) {
 		c.Close()
 		return
 	}
-	if u.RefuseInit {
+	u.mu.Lock()
+	refuse := u.RefuseInit
+	u.mu.Unlock()
+	if refuse {
+		// reset the connection right after the handshake: the gateway's init/start writes fail
+		if tc, ok := c.(*net.TCPConn); ok {
+			tc.SetLinger(0)
+		}
 		c.Close()
 		return
 	}
